@@ -33,4 +33,18 @@ mod test {
 }"#;
         assert_eq!(json_str, expected);
     }
+
+    #[test]
+    fn test_key_is_value_and_prefix() {
+        // `a` is both a value and a prefix of `a.b`: this must not panic and the dotted key
+        // wins whatever the iteration order of the map is
+        for _ in 0..32 {
+            let luals_json = serde_json::json!({"a": 1, "a.b": 2, "c": null, "c.d": 3});
+            let config = FlattenConfigObject::parse(luals_json);
+            assert_eq!(
+                config.to_emmyrc(),
+                serde_json::json!({"a": {"b": 2}, "c": {"d": 3}})
+            );
+        }
+    }
 }
